@@ -1,7 +1,7 @@
 #!/usr/bin/env python3
 """Fill the confirmation fields of seeded/<set>/<n>/lead.json from the lead_*.log files written by tools/seedverify*.sh."""
 import json, glob, os, re
-for d in sorted(glob.glob('/verif/seeded/C*/*/')):
+for d in sorted(glob.glob('/verif/seeded/[CW]*/*/')):
     logs = {k: os.path.join(d, f'lead_{k}.log') for k in ('demo_clean', 'demo_changed', 'existing_tests')}
     if not all(os.path.exists(p) for p in logs.values()):
         continue
